@@ -83,6 +83,15 @@ func genLifetime(t *rapid.T) Lifetime {
 		l.Months = rapid.IntRange(1, 60).Draw(t, "months")
 	}
 	l.Days = rapid.SampledFrom([]int{0, 0, -1, 1, 10}).Draw(t, "days")
+	// independent times of day: the policy counts calendar dates, so "15 months to the day, but a
+	// second earlier in the day" is still 15 months
+	tod := []int{0, 0, 1, 43199, 43200, 86399}
+	l.NBSec = rapid.SampledFrom(tod).Draw(t, "nbsec")
+	l.NASec = rapid.SampledFrom(tod).Draw(t, "nasec")
+	if rapid.IntRange(0, 3).Draw(t, "todfree") == 0 {
+		l.NBSec = rapid.IntRange(0, 86399).Draw(t, "nbsecfree")
+		l.NASec = rapid.IntRange(0, 86399).Draw(t, "nasecfree")
+	}
 	// "27 months and a day" / "39 months and a day": the published Chrome text ("> 27 months") and a
 	// whole-month reading disagree there and the statement does not settle it: stay out.
 	if m, partial := wholeMonths(l.NotBefore(), l.NotAfter()); partial && (m == 27 || m == 39) {
@@ -327,6 +336,7 @@ func judge1(vp *harness.Verdict, c Case1, out Out1) {
 	n := len(c.List.Logs)
 	v.Class(fmt.Sprintf("policy:%s", map[int]string{polChrome: "chrome", polApple: "apple"}[c.Policy]), fmt.Sprintf("total:%d", nd.Total), fmt.Sprintf("subs:%d", len(c.Subs)))
 	listOK := nd.satisfies(c.List, seq(n))
+	v.Class(lifetimeClass(c.Life)...)
 	v.Class(fmt.Sprintf("list-satisfiable:%v", listOK))
 	anyBad := false
 	for si, s := range c.Subs {
